@@ -181,6 +181,56 @@ def k_assign_history(ctx, w, seed):
             return
 
 
+def k_field_set(ctx, w, seed, n=1500):
+    """Many fields of one width as dictionary keys / compared pairwise with structured neighbours: values that differ by a
+    multiple of 2^61-1 (CPython's integer hash modulus), by 2^32, 2^31-1, in one bit, octets reversed - equality and dictionary
+    identity depend on exactly (value, width)."""
+    import random
+    U = _imp()
+    r = random.Random(f"fieldset/{w}/{seed}")
+    case = {"k": "field_set", "w": w, "seed": seed, "n": n}
+    ctx.case(f"field_set/w={w}", (w, seed), sample=case)
+    m = (1 << 8 * w) - 1
+    vals = set()
+    while len(vals) < min(n, m + 1):
+        v = rand_uint(r, 8 * w)
+        fam = [v, v ^ 1, v ^ (1 << (8 * w - 1)), int.from_bytes(v.to_bytes(w, "big")[::-1], "big"), v + (2 ** 61 - 1), v - (2 ** 61 - 1), v + 2 * (2 ** 61 - 1), v + 2 ** 32, v + 2 ** 31 - 1,
+               v + 2 ** 61, v % (2 ** 61 - 1), m - v, (v * 31) & m]
+        vals.update(x for x in fam if 0 <= x <= m)
+    vals = sorted(vals)
+    objs = [U.UnsignedByteField(v, w) if i % 2 else U.ByteFieldGenerator.from_int(w, v) for i, v in enumerate(vals)]
+    d = {}
+    for o, v in zip(objs, vals):
+        d[o] = v
+    if not ctx.check("field.eq", len(d) == len(vals), "dict_conflates_different_values", f"w={w}", case, distinct_values=len(vals), dict_size=len(d)):
+        return
+    for v in r.sample(vals, min(200, len(vals))):
+        for delta in (2 ** 61 - 1, 2 ** 32, 1):
+            u = v + delta
+            if u <= m:
+                ok, e = attempt(lambda: U.UnsignedByteField(v, w) == U.UnsignedByteField(u, w))
+                if not ctx.check("field.eq", ok and e is False, "different_values_compare_equal", f"w={w}/delta={'2^61-1' if delta == 2 ** 61 - 1 else delta}", case, a=v, b=u):
+                    return
+    ctx.check("field.eq", all(d.get(U.UnsignedByteField.from_bytes(v.to_bytes(w, "big"))) == v for v in r.sample(vals, min(200, len(vals)))) if w else True, "dict_lookup_fails", f"w={w}", case)
+
+
+def k_fresh_results(ctx, w, v):
+    """Factories hand out fresh objects: changing a field obtained from a generator / from_bytes call does not change what the
+    same call returns next time."""
+    U = _imp()
+    case = {"k": "fresh_results", "w": w, "v": v}
+    ctx.case(f"fresh_results/w={w}", (w, v), sample=case)
+    for name, mk in (("ByteFieldGenerator.from_int", lambda: U.ByteFieldGenerator.from_int(w, v)), ("ByteFieldGenerator.from_bytes", lambda: U.ByteFieldGenerator.from_bytes(w, v.to_bytes(w, "big"))),
+                     ("UnsignedByteField.from_bytes", lambda: U.UnsignedByteField.from_bytes(v.to_bytes(w, "big")))):
+        a = mk()
+        other = (v ^ 1) if w else 0
+        attempt(setattr, a, "value", other)
+        b = mk()
+        ctx.check("field.fresh_results", b is not a and int(b) == v and bytes(b.as_bytes) == v.to_bytes(w, "big") and len(b) == w, "factory_returned_a_shared_object", name.split(".")[1], case,
+                  observed=[int(b), bytes(b.as_bytes).hex()], expected=v)
+        attempt(setattr, a, "value", v.to_bytes(w, "big") if w else 0)
+
+
 def k_handed_over(ctx, w1, v1, w2, v2, seed):
     """Field objects handed to the components that take them (PDU configuration / header, transaction id, reserved messages)
     remain the caller's objects: whatever those components do or refuse, each field still shows its own (value, width) in every view."""
@@ -227,7 +277,7 @@ def k_handed_over(ctx, w1, v1, w2, v2, seed):
                       "same_width" if w1 == w2 else "different_widths", dict(case, which=name), uses=uses)
 
 
-KINDS = {"handed_over": k_handed_over, "field": k_field, "pair": k_pair, "refuse": k_refuse, "conv": k_conv, "assign_history": k_assign_history}
+KINDS = {"field_set": k_field_set, "fresh_results": k_fresh_results, "handed_over": k_handed_over, "field": k_field, "pair": k_pair, "refuse": k_refuse, "conv": k_conv, "assign_history": k_assign_history}
 ROUTES = ("ctor", "gen_int", "gen_bytes", "from_bytes", "subclass", "assign_int", "assign_bytes")
 
 
@@ -308,6 +358,11 @@ def run(ctx):
             v = rand_uint(r, bits)
             k_conv(ctx, n, v, False)
             k_conv(ctx, n, v - (1 << (bits - 1)), True)
+    for w in (1, 2, 4, 8):
+        for j in range(ctx.n(2, 60)):
+            k_field_set(ctx, w, ctx.seed * 1_000_003 + ctx.shard[0] * 100_003 + j)
+        for v in [0, 1, 2, 7, 17, 42, 127, 128, 200, 254, 255] + ([256, 257, 65535] if w >= 2 else []) + [rand_uint(r, 8 * w) for _ in range(20)]:
+            k_fresh_results(ctx, w, v)
     j = 0
     for w1 in (1, 2, 4, 8):
         for w2 in (1, 2, 4, 8):
